@@ -21,7 +21,8 @@ def alt(d): return '|'.join(seq(d) for _ in range(rnd.choice([1,1,1,2,3])))
 def broken(p):
     r = rnd.random()
     if r < 0.3: return p + rnd.choice(['(',')','[','*','\\','{2}','a{1,2}','(?i)a','\\d','\\w+','a*?'])
-    if r < 0.5: return rnd.choice(['*','+','?',')','a)(?:b']) + p
+    if r < 0.5: return rnd.choice(['*','+','?',')','a)(?:b', 'a)|(', ')|(', 'x)(']) + p
+    if r < 0.6: return p + rnd.choice([')|(b', ')(', ')|(?:a'])
     return p
 def subject():
     return ''.join(rnd.choice(['a','b','c','x','é','𝄞',' ','\n','.','|','(',')','\\','$','^','ab','']) for _ in range(rnd.choice([0,1,1,2,2,3,4])))
